@@ -189,6 +189,39 @@ func runC14(c *Ctx) error {
 		}
 		c.count(tag, true, "kind=close-reason-reuse")
 	}
+	// ---- (a3) the caller's memory BEHIND a slice it passed (its spare capacity) is the caller's too: slices cut out of one
+	// scratch buffer, not adjacent, text with the encoding check on (the check looks at all slices together)
+	for _, server := range []bool{true, false} {
+		for _, pmd := range []bool{false, true} {
+			for _, api := range []string{"writev", "writevasync"} {
+				conn, tap, err := connSpec{Server: server, PMD: pmd, Utf8: true}.open(&recHandler{})
+				if err != nil {
+					return err
+				}
+				scratch := []byte("head|....GUARD-BYTES-OWNED-BY-THE-CALLER....|middle part \xc3\xa9|tail-of-the-message")
+				before := append([]byte(nil), scratch...)
+				i1, i2 := bytes.IndexByte(scratch, '|')+1, bytes.LastIndexByte(scratch, '|')
+				j1 := bytes.Index(scratch, []byte("|middle"))
+				s0, s1, s2 := scratch[:i1], scratch[j1+1:i2+1], scratch[i2+1:] // cap(s0) reaches to the end of scratch
+				want := append(append(append([]byte(nil), s0...), s1...), s2...)
+				res := rawSend(conn, sendOp{API: api, Opcode: 1, Slices: [][]byte{s0, s1, s2}})
+				tag := fmt.Sprintf("slices with spare capacity server=%v pmd=%v api=%s", server, pmd, api)
+				if !bytes.Equal(scratch, before) {
+					c.oracleFail(fmt.Sprintf("the caller's buffer behind the first slice was modified by the call: %q -> %q [%s]", before, scratch, tag), "payload-modified", map[string]any{"tag": tag})
+				}
+				rx := &rfcReceiver{server: server}
+				if pd := conn.VerifPD(); pd.Enabled {
+					rx.bits = 15
+				}
+				ms, problem := rx.receive(tap.written())
+				if res != 0 || problem != "" || len(ms) != 1 || !bytes.Equal(ms[0].Payload, want) {
+					c.oracleFail(fmt.Sprintf("the message on the wire is not the concatenation of the slices passed (result %d, %s) [%s]", res, problem, tag), "payload-modified", map[string]any{"tag": tag})
+				}
+				_ = tap.Close()
+				c.count(tag, true, "kind=spare-capacity")
+			}
+		}
+	}
 	// ---- (b) held messages under the scribbler
 	for _, server := range []bool{true, false} {
 		for _, pmd := range []bool{false, true} {
